@@ -6,5 +6,5 @@ Extraction "model.ml"
   N.add N.mul N.div_eucl N.ltb
   st_init step run node_init nstep nrun sweeps rsys_init rstep rrun
   evict_choice idle
-  mon_evict mon_handles mon_quiescent_clean mon_rdv_end mon_probe mon_swept
+  mon_evict mon_handles mon_quiescent_clean mon_rdv_end mon_probe mon_swept mon_rx_free
   n_reserved n_live n_dropped n_present_handles marker_obs clean_tbl.
